@@ -557,3 +557,21 @@ Example C12_e2e_stub_nonvacuous :
                  (e2e_sep0 ++ assemble (stream_of (map fst (filter undamaged stub_dmg_items)))))
               (map item_bytes (map fst (filter undamaged stub_dmg_items)), None) = true.
 Proof. exact e2e_stub_nonvacuous. Qed.
+
+(* ---- D35 (known finding): the hypothesis [info_ok] on the damaged messages of C12_scan_continue_skips cannot be
+   weakened to "the metadata-only decode fails too".  A damaged message whose metadata cannot be read either (the length
+   of section 1-3 changed, total length intact) is not skipped by its declared total length: the scan resumes one byte
+   behind its signature and a complete message held in its body is delivered. *)
+From PBK Require Import StreamD35.
+Theorem C12_continue_unreadable_metadata_refuted :
+  exists (process process_info : list byte -> result msginfo) (filt : msginfo -> result bool)
+         (hook : msginfo -> result unit) (good : list byte -> bool) (sep0 : list byte)
+         (l : list (list byte * list byte)),
+    nosig sep0 /\
+    stream_ok (fun m => if good m then full_ok process hook m
+                        else exists e, is_lib_err e = true /\ full_fails process m e /\ info_fails process_info m e) l /\
+    Forall (fun x => N.to_nat (nth 4 (fst x) 0%N) = length (fst x)) l /\
+    generate process process_info filt hook false true false (sep0 ++ assemble l)
+    <> (filter good (map fst l), None).
+Proof. exact continue_unreadable_metadata_refuted. Qed.
+Print Assumptions C12_continue_unreadable_metadata_refuted.
